@@ -1,5 +1,5 @@
 """C10 -- segment models are inherited and sections interpolate only between neighbours (spec/Sections.tla)."""
-from lib import build, tlc, replay, report
+from lib import build, tlc, replay, report, gen
 
 
 def run(tier):
@@ -21,6 +21,12 @@ def run(tier):
     res = replay.replay(exe, beh, shards=16, timeout_s=120)
     c.add_replay(res, "as-written vs explicit vs repeated layouts (bitwise), resolved values, interpolation bounds, locality of an override")
     c.sample(beh[len(beh) // 2][:3000] + "...")
+    # documents of the world-file grammar with a slab or fault: the explicit form (a section entry for every coordinate, every
+    # segment carrying the model lists it would have inherited) must answer bit for bit like the document as written
+    gb = gen.behaviours(c, tier, "explicit")
+    gres = replay.replay(exe, gb, shards=16, timeout_s=180)
+    c.add_replay(gres, "world-file grammar: explicit form of the document = document as written, bit for bit")
+    c.coverage["grammar_documents"] = len(gb)
     c.coverage["exhaustive"] = tier == "thorough"
     c.coverage["distinct_nontrivial"] = len(beh)
     c.coverage["rule"] = ("slabs and faults with three trench coordinates; for every coordinate: no section entry, or an entry whose temperature "
@@ -32,6 +38,10 @@ def run(tier):
                           "section entries override segment lengths (incl. zero-length placeholder segments) and thickness per coordinate (13^3 tables x 2 "
                           "kinds; quick every third): which segment a depth falls in, where the feature ends and how thick it is lie between the two "
                           "neighbouring sections' values and equal a section's own at its coordinate. Grains and velocity models declared for one coordinate at "
-                          "section or segment level, with or without a feature-level model, against the explicit and the repeated layout, bitwise. non-trivial: placements / tables with at least one entry")
+                          "section or segment level, with or without a feature-level model, against the explicit and the repeated layout, bitwise. Plus the documents of the world-file grammar Gen.tla that "
+                          "contain a slab or fault (curved and oblique trenches, 2-4 coordinates, one- and two-segment tables, every deterministic model, section entries with "
+                          "models of their own at section or segment level for one coordinate): the explicit form - a section entry for every coordinate, every segment "
+                          "carrying the four model lists it inherits - answers bit for bit like the document as written on the whole lattice. "
+                          "non-trivial: placements / tables with at least one entry")
     c.assumptions += ["uniform models; straight trench (the interpolation weight is only asserted to be a convex combination, as the statement says)"]
     return c.finish()
